@@ -56,6 +56,10 @@ structure CFFs where
   ReEteff : K
   ImEteff : K
 
+/-- every field 0 (base of concrete witnesses: `{ Pt.zero with Q2 := 4, … }`) -/
+def Pt.zero : Pt := ⟨0, 0, 0, 0, 0, 0, 0, 0, 0, 0, 0, 0, 0, 0, 0, 0, 0, 0, 0, 0, 0, 0⟩
+def CFFs.zero : CFFs := ⟨0, 0, 0, 0, 0, 0, 0, 0, 0, 0, 0, 0, 0, 0, 0, 0, 0, 0⟩
+
 def tmin (c : Consts) (Q2 : K) (xB : K) (eps2 : K) : K :=
   (((-Q2) * ((((2 : K) * ((1 : K) - xB)) * ((1 : K) - (ksqrt ((1 : K) + eps2)))) + eps2)) / ((((4 : K) * xB) * ((1 : K) - xB)) + eps2))
 
